@@ -294,6 +294,8 @@ dt_get_wcnt_mon(struct dt_d_s that)
 		/* to shut gcc up */
 	case DT_YWD:
 		return __ywd_get_wcnt_mon(that.ywd);
+	case DT_YD:
+		return __ymd_get_count(dt_dconv(DT_YMD, that).ymd);
 	default:
 	case DT_DUNK:
 		return 0;
@@ -437,7 +439,10 @@ dt_get_bday_q(struct dt_d_s that, dt_bizda_param_t bp)
 	case DT_YMD:
 		return __ymd_get_bday(that.ymd, bp);
 	case DT_YMCW:
-		return __ymcw_get_bday(that.ymcw, bp);
+	case DT_YWD:
+	case DT_YD:
+		/* count in the ymd representation */
+		return __ymd_get_bday(dt_dconv(DT_YMD, that).ymd, bp);
 	default:
 	case DT_DUNK:
 		return 0;
